@@ -180,6 +180,19 @@ Definition open_handler (h : handler) (supplied : bool) (prepared : bytes) : res
   | Err c => if supplied then authenticate h prepared else Err c
   end.
 
+(* the same with the preparation made explicit: PDFDocEncoding (R <= 4) resp. SASLprep (R >= 5) is a
+   PARTIAL function of the candidate string; a candidate it is not defined on ([None]) is an
+   authentication failure - no file has such a password (crypto.go: authenticate) *)
+Definition authenticate_prep (h : handler) (prep : option bytes) : res (Z * bytes) :=
+  match prep with None => Err Auth | Some p => authenticate h p end.
+
+(* parseEncryptDict: [empty_first] - the empty password (always preparable, to the empty string) is tried first *)
+Definition open_handler_prep (h : handler) (supplied : bool) (prep : option bytes) : res (Z * bytes) :=
+  match authenticate h [] with
+  | Ok r => Ok r
+  | Err c => if supplied then authenticate_prep h prep else Err c
+  end.
+
 (* ---- createStdSecHandler --------------------------------------------------------- *)
 
 Definition choose_R (V : Z) (perm : Z) : option Z :=
